@@ -97,6 +97,10 @@ for _c in ["Curve25519Legacy", "Ed25519Legacy", "P256", "P384", "P521", "Secp256
 for _c in ["P256", "P384", "P521", "Secp256k1"]:
     item("ecdsaSecretLen" + _c, "src/crypto/ecdsa.rs", r"fn secret_key_length.*?Self::%s \{ \.\. \} => Some\((\d+)\)" % _c,
          "ecdsa::SecretKey::secret_key_length(%s)" % _c)
+for _c in ["P256", "P384", "P521", "Secp256k1"]:
+    item("ecdsaPadLen" + _c, "src/crypto/ecdsa.rs",
+         r"fn try_from_mpi.*?EcdsaPublicParams::%s \{ \.\. \} => \{\s*let raw = crate::types::pad_key::<(\d+)>" % _c,
+         "ecdsa::SecretKey::try_from_mpi(%s): pad_key size" % _c)
 item("c25519PadLen", "src/crypto/ecdh.rs", r"pad_key::<(\d+)>\(&rev\)", "Curve25519Legacy::try_from_bytes_rev pad size")
 
 # ---- native points with the 0x40 prefix --------------------------------------------------------
